@@ -144,7 +144,7 @@ AttemptStep(id, i) ==
        THEN /\ Other
             /\ grp' = [grp EXCEPT ![id].pc[i].pc = "log"]
        ELSE LET kind == KindAt(i, now)
-            IN /\ Attempt(id, g.gk, IntegName(i), PayloadOf(g, i), kind, g.dl, now)
+            IN /\ Attempt(id, g.gk, "r1", IntegName(i), PayloadOf(g, i), kind, g.dl, now)
                /\ grp' = [grp EXCEPT ![id].pc[i] =
                             CASE kind = "ok"    -> [pc |-> "log", n |-> p.n + 1, next |-> 0]
                               [] kind = "unrec" -> [pc |-> "failed", n |-> p.n + 1, next |-> 0]
